@@ -4,6 +4,7 @@ import asyncio
 import codecs
 import functools
 import logging
+import math
 import os
 
 import lazy_object_proxy
@@ -37,12 +38,25 @@ def _with_patched_multidict(f):
     return _wrapper
 
 
+def float_repr(val: float) -> str:
+    """repr() for floats that `ast.literal_eval()` can always read back"""
+    if math.isinf(val):
+        # `inf` isn't a literal, but a float literal that overflows evaluates to it
+        return "1e999" if val > 0 else "-1e999"
+    return repr(val)
+
+
 class HippoPrettyPrinter(PrettyPrinter):
     def __init__(self, *args, **kwargs):
         super().__init__(*args, sort_dicts=False, **kwargs)
 
+    def _literal_format(self, obj, context, maxlevels, level):
+        if isinstance(obj, float) and math.isinf(obj):
+            return float_repr(obj), True, False
+        return PrettyPrinter.format(self, obj, context, maxlevels, level)
+
     # Only touch the public APIs, the private pprint APIs are unstable.
-    format = _with_patched_multidict(PrettyPrinter.format)
+    format = _with_patched_multidict(_literal_format)
     pprint = _with_patched_multidict(PrettyPrinter.pprint)
     _base_pformat = _with_patched_multidict(PrettyPrinter.pformat)
 
